@@ -15,13 +15,16 @@ PROP = {
                    "long-double/fma rounding of x*scale), the 64-bit entry points as reference semantics, g++/glibc "
                    "(std::pow(10,p) correctly rounded: checked at start-up and recorded); inputs whose scaled coordinate is on, "
                    "or for the 10^p scale within |t|*2^-51+2^-10 of, a half-integer are not explored (tie breaking and the single "
-                   "double rounding of x*10^p are left unspecified by the property)"),
+                   "double rounding of x*10^p are left unspecified by the property); scenes on which the 64-bit PolyTree build itself "
+                   "dies (stack overflow in CheckSplitOwner, C04/C10 territory) are detected in a forked child, rejected and counted"),
     "technique": "runtime monitoring: differential D-API vs 64-bit API on independently scaled and rounded inputs, bit-exact",
     "rule": ("case i: API class by i mod 100 (ClipperD paths 28, ClipperD tree 19, open-small-triangle-biased ClipperD 5, BooleanOp "
              "family 10, InflatePaths 13, RectClip 7, RectClipLines 5, TrimCollinear 7, Minkowski 6); precision -8..8 (15% at the "
              "default 2); inputs are integers n on a decimal grid 10^-k, k within precision-2..precision+3 (so 0..5 digits beyond "
              "the precision grid are rounded away), |n/10^k*scale| below a magnitude class 2^6..2^51; scenes from gp_candidate (7 "
-             "shape classes), gp_scene, zoo paths, star-shaped/random polygons, nested rings, rectilinear walks, polylines; a "
+             "shape classes), gp_scene, zoo paths, star-shaped/random polygons, nested rings, rectilinear walks, polylines, and (15% of "
+             "the ClipperD/BooleanOp cases) scenes whose features are only 2..40 scaled units wide; the biased class clips 3-point "
+             "open subjects with two points 0..2.4 scaled units apart; a "
              "case is non-trivial iff it passed the premises, was compared, and the 64-bit reference result is non-empty; "
              "distinct by hash of inputs+configuration"),
     "assumptions": ["std::pow(10,p) is the double nearest to 10^p and ilogb(10^p)+1 is the exponent of the smallest power of two "
